@@ -298,10 +298,10 @@ package soyhtml
 // the arguments may panic; evalFunc's recover turns that into a render error.
 //@ func funcRange
 //@   like renderFn
-//@   props C06 C01 C08 C09
+//@   props C06 C01 C02 C08 C09
 //@   nosafety assert idx
 //@   ensures[bounded] typeis(result, data.List)
-//@   ensures[descending-or-empty-span-is-the-empty-list;C01] limit <= init ==> len(unbox(result, data.List)) == 0
+//@   ensures[descending-or-empty-span-is-the-empty-list;C01,C02] limit <= init ==> len(unbox(result, data.List)) == 0
 //@   loop 0
 //@     invariant increment > 0 && fresh(indices) && (limit <= init ==> len(indices) == 0) && index >= init
 //@     decreases limit - index
@@ -314,21 +314,21 @@ package soyhtml
 //@   nosafety
 //@   ghost recd bool = false
 //@   at call recover#0 after set recd = res != nil
-//@   ensures[never-swallows] !recd
+//@   ensures[never-swallows;C06,C12] !recd
 //@ func (*state).evalCall$1
 //@   props C06
 //@   handler
 //@   nosafety
 //@   ghost recd bool = false
 //@   at call recover#0 after set recd = res != nil
-//@   ensures[never-swallows] !recd
+//@   ensures[never-swallows;C06,C12] !recd
 //@ func (*state).evalFunc$1
 //@   props C06
 //@   handler
 //@   nosafety
 //@   ghost recd bool = false
 //@   at call recover#0 after set recd = res != nil
-//@   ensures[never-swallows] !recd
+//@   ensures[never-swallows;C06,C12] !recd
 
 // errorf never returns and cannot fail before raising its panic.
 // C19: the render error carries the file that defines the state's template and
